@@ -660,8 +660,24 @@ def _unknown_traits(ctx):
                 '<<' in N.txt(e.src.ast),
                 start=K.enclosing_for(graph, node))
             shift_first = shift_first and ok
+    # {INVALID: <the first code>}: a dict display keyed by INVALID whose
+    # value resolves to the constant 1
+    def starts_at_one(expr):
+        if isinstance(expr, ast.Constant):
+            return expr.value == 1
+        if not isinstance(expr, ast.Name):
+            return False
+        top = [st.value for st in cc.node.body
+               if isinstance(st, ast.Assign) and len(st.targets) == 1 and
+               N.txt(st.targets[0]) == expr.id]
+        return len(top) == 1 and isinstance(top[0], ast.Constant) and \
+            top[0].value == 1
+    first = any(
+        isinstance(sub, ast.Dict) and len(sub.keys) == 1 and
+        N.txt(sub.keys[0]) == 'INVALID' and starts_at_one(sub.values[0])
+        for sub in K.walk_no_nested(cc.node))
     ctx.ob('C03.6', cc, None,
-           '{INVALID: code}' in src and shift_first,
+           first and shift_first,
            'INVALID owns the first bit; every trait code is shifted before '
            'it is assigned', construct='create_code reserves INVALID')
 
